@@ -190,7 +190,7 @@ def work(job):
         inputs += consistent_mutants(raw)
         cuts = range(len(raw) + 1) if thorough else sorted(set(rng.randrange(len(raw)) for _ in range(40)))
         inputs += [raw[:c] for c in cuts]
-        trailing = obj.pack(blob_in_envelope=False)
+        trailing = der.to_trailing(raw)
         inputs += [trailing[:c] for c in (cuts if thorough else list(cuts)[:15])]
         for _ in range(400 if thorough else 60):
             inputs.append(bytes(rng.randrange(256) for _ in range(rng.randrange(0, 80))))
